@@ -5,7 +5,7 @@ From Coq Require Import ZArith NArith List Bool.
 Import ListNotations.
 From Coq Require Import QArith.
 From AV Require Import model.Syntax model.Lexer model.Grammar model.Literal model.Display model.Rat model.UnitTypes model.Map
-  model.Units model.Compound model.UnitWord model.Eval model.Cbor model.Codec model.Cli.
+  model.Units model.Compound model.UnitWord model.Eval model.Cbor model.Codec model.Cli model.DbProto.
 Open Scope Z_scope.
 
 Definition zs_of_chars (s : list chr) : list Z := map Z.of_N s.
@@ -152,6 +152,29 @@ Definition obs_parse_word (input : list Z) : list Z :=
   | None => [0]
   end.
 
+(* tag 11: the recovery protocol: input = meta code, index code, then the crash points of the killed starts;
+   output = metadata current after the kills, index directory present after the kills, then after one completed start:
+   answers from the shipped data, metadata current *)
+Definition meta_of_code (c : Z) : meta :=
+  match c with
+  | 0 => MAbsent | 1 => MGarbage
+  | _ => let k := Z.to_nat (c - 2) in
+         MJson (match Nat.div k 3 with O => None | 1%nat => Some VThis | _ => Some VOther end)
+               (match Nat.modulo k 3 with O => None | 1%nat => Some HCur | _ => Some HOther end)
+  end.
+Definition index_of_code (c : Z) : index :=
+  match c with 0 => IMissing | 1 => IBroken | 2 => IOpen Empty | 3 => IOpen Shipped | _ => IOpen Other end.
+Definition obs_dbproto (input : list Z) : list Z :=
+  match input with
+  | m :: i :: cps =>
+      let d0 := {| dmeta := meta_of_code m; dindex := index_of_code i |} in
+      let d1 := fold_left (fun d cp => crash_run (Z.to_nat cp) d) cps d0 in
+      let d2 := complete d1 in
+      [if meta_current d1 then 1 else 0; match dindex d1 with IMissing => 0 | _ => 1 end;
+       match answers d2 with Shipped => 1 | _ => 0 end; if meta_current d2 then 1 else 0]
+  | _ => [-1]
+  end.
+
 Definition run_case (tag : Z) (input : list Z) : list Z :=
   match tag with
   | 1 => obs_lex_parse (chars_of_zs input)
@@ -164,6 +187,7 @@ Definition run_case (tag : Z) (input : list Z) : list Z :=
   | 8 => obs_rational_json input
   | 9 => obs_cli input
   | 10 => obs_parse_word input
+  | 11 => obs_dbproto input
   | _ => [-1]
   end.
 
